@@ -64,6 +64,8 @@ def obligations():
                          params={"fmt": f, "cell": cell, "n_atoms": 3}))
     o.append(Obl("C01.text.mdcrd.7atoms", "py", T, "writer", enc["mdcrd"], "7 atoms: 21 values = 2 full 10F8.3 records + 1", "record wrapping at 10 values per line and a fresh record per frame", 300, params={"fmt": "mdcrd", "cell": "ortho", "n_atoms": 7}))
     o.append(Obl("C01.text.rst7.odd_atoms", "py", T, "writer", enc["rst7"], "3 and 4 atoms: 6F12.7 records with an odd / even number of atoms", "line breaks after every second atom; box line on its own record", 300, params={"fmt": "rst7", "cell": "ortho", "n_atoms": 4}))
+    o.append(Obl("C01.text.rst7.two_atoms_60deg", "py", T, "writer", enc["rst7"], "2 atoms, rhombohedral cell 60/60/60 with lengths below 60 A: the reader has to tell a box line from a velocity line", "the box written for a 2-atom system is read back as a box", 300,
+                 params={"fmt": "rst7", "cell": "rhomb60", "n_atoms": 2}))
     o.append(Obl("C01.text.mdcrd.box_record_layout", "py", T, "writer", enc["mdcrd"], "fixed-column (FORTRAN 3F8.3) reading of the box record", "the box record occupies columns 1-24 as the AMBER format page specifies", 300,
                  params={"fmt": "mdcrd", "cell": "ortho", "n_atoms": 3, "strict_box": True}))
     return o
